@@ -637,8 +637,21 @@ func (s *BgpServer) prePolicyFilterpath(peer *peer, path, old *table.Path) (*tab
 		if !ok {
 			return nil, nil, true
 		}
+		// what was advertised before must be seen in its VRF form too: the route may have to be
+		// withdrawn as a plain route (the new best is not importable, or the generic code below
+		// falls back to withdrawing "old")
+		if old != nil {
+			if f := old.GetFamily(); (f == bgp.RF_IPv4_VPN || f == bgp.RF_IPv6_VPN || f == bgp.RF_FS_IPv4_VPN || f == bgp.RF_FS_IPv6_VPN) && table.CanImportToVrf(vrf, old) {
+				old = old.ToLocal()
+			} else {
+				old = nil
+			}
+		}
 		if table.CanImportToVrf(vrf, path) {
 			path = path.ToLocal()
+		} else if old != nil && !path.IsWithdraw {
+			path = old.Clone(true)
+			old = nil
 		} else {
 			return nil, nil, true
 		}
